@@ -509,7 +509,7 @@ def check(run):
                        "library blocks InitAsync/ValuePoll are event sources only, never destinations",
                        "the order-independence clause is decided by the exhaustive run of all creation "
                        "orders of each sampled configuration, not by a theorem (see Props/C05.v)"]
-    nbase = 60 if run.tier == 'quick' else 900
+    nbase = 60 if run.tier == 'quick' else 2500
     cases = []
     for i in range(-len(DIRECTED), nbase):
         if i < 0:
